@@ -100,9 +100,10 @@ deriving Repr, DecidableEq
 '''
 
 
-def st_tr(**kw):
+def st_tr(refused=False, **kw):
+    """`refused`: the same statements when `__trigger_update`'s submission is refused (nothing is queued)"""
     return StateTranslator(FIELDS, subst=dict(READS), stmt_calls={
-        'self.__trigger_update': lambda args: 'triggerUpdate st'}, **kw)
+        'self.__trigger_update': (lambda args: 'st') if refused else (lambda args: 'triggerUpdate st')}, **kw)
 
 
 def gen_init(tp):
@@ -164,7 +165,7 @@ def gen_trigger_update(tp):
             f'  {{ st with queued := st.queued ++ [⟨{captured}⟩] }}\n')
 
 
-def gen_add_custom(tp):
+def gen_add_custom(tp, refused=False):
     f = find_def(tp, 'TracepointConfigService.add_custom')
     params = [a.arg for a in f.args.args]
     if params != ['self', 'path', 'line', 'args', 'watches', 'metrics']:
@@ -174,7 +175,7 @@ def gen_add_custom(tp):
         raise Untranslatable('add_custom does not start by naming a fresh uuid (`tp_id = str(uuid.uuid4())`)')
     if ast.unparse(body[1]) != 'config = build_trigger(tp_id, path, line, args, watches, metrics)':
         raise Untranslatable('add_custom: second statement is ' + ast.unparse(body[1])[:80])
-    tr = st_tr()
+    tr = st_tr(refused)
     rest = body[2:]
     guard = rest[0]
     if isinstance(guard, ast.If) and ast.unparse(guard.test) == 'config is None' and not guard.orelse \
@@ -186,6 +187,12 @@ def gen_add_custom(tp):
         none_arm = 'let config := noneTrig\n' + tr.sblock(rest, True)
         some_arm = tr.sblock(rest, True)
     ind = lambda t: '\n'.join('    ' + l for l in t.splitlines())   # noqa: E731
+    if refused:
+        return ('/-- `add_custom` on a closed task handler: the same statements, the submission in `__trigger_update` is\n'
+                '    refused (nothing is queued; the exception leaves `add_custom` when that statement is reached) -/\n'
+                'def addCustomRefused (st : Svc) (built : Option Trig) : Svc × Handle :=\n'
+                '  let tp_id := st.nextHandle\n  let st := { st with nextHandle := st.nextHandle + 1 }\n'
+                '  match built with\n  | none =>\n' + ind(none_arm) + '\n  | some config =>\n' + ind(some_arm) + '\n')
     return ('/-- what a stored `None` looks like in the lists (only reachable when `add_custom` does not guard) -/\n'
             'def noneTrig : Trig := ⟨"<None>", 0, "<None>"⟩\n\n'
             '/-- `add_custom`; `built` is `build_trigger(tp_id, path, line, args, watches, metrics)` (None when the\n'
@@ -195,7 +202,7 @@ def gen_add_custom(tp):
             '  match built with\n  | none =>\n' + ind(none_arm) + '\n  | some config =>\n' + ind(some_arm) + '\n')
 
 
-def gen_remove_custom(tp):
+def gen_remove_custom(tp, refused=False):
     f = find_def(tp, 'TracepointConfigService.remove_custom')
     params = [a.arg for a in f.args.args]
     if params != ['self', '_id']:
@@ -219,10 +226,16 @@ def gen_remove_custom(tp):
     cond = loop.body[0]
     if not cond.body or not isinstance(cond.body[-1], ast.Return) or cond.body[-1].value is not None:
         raise Untranslatable('remove_custom: the match arm does not end with `return`')
-    tr = st_tr()
+    tr = st_tr(refused)
     test = tr.expr(cond.test)
     arm = tr.sblock(list(cond.body), False)
     arm = '\n'.join('    ' + l for l in arm.splitlines())
+    if refused:
+        return ('/-- `remove_custom` on a closed task handler (the submission is refused, nothing is queued) -/\n'
+                'def removeCustomRefused (st : Svc) (_id : Handle) : Svc :=\n'
+                f'  match List.findIdx? (fun {x} => {test}) {READS[src]} with\n'
+                '  | none => st\n'
+                f'  | some {idx} =>\n{arm}\n')
     return ('/-- `remove_custom`: first index whose registration id equals `_id`; both parallel lists lose that\n'
             '    index -/\n'
             'def removeCustom (st : Svc) (_id : Handle) : Svc :=\n'
@@ -648,6 +661,8 @@ def generate():
     parts.append(gen_convert(grpc))
     parts.append(gen_timer(utils, poll))
     parts.append(gen_store(tp))
+    parts.append(gen_add_custom(tp, refused=True))
+    parts.append(gen_remove_custom(tp, refused=True))
     parts.append(gen_poll_program(poll))
     parts.append(gen_timer_skeleton(utils, poll))
     parts.append('end Extracted.ConfigSvc\n')
